@@ -80,6 +80,28 @@ pub struct Case {
     /// seed of the 64 sampled truncation offsets (a fixed function of this value, see `sampled_cuts`);
     /// only used when the stream is longer than ALL_CUTS_LIMIT
     pub cut_seed: u32,
+    /// None: the writer writes into a Vec<u8>. Some(n): into a user-side `io::Write` that implements only
+    /// `write` (accepting at most n >= 1 bytes per call: short writes are legal) and `flush` - no vectored
+    /// writes, no `write_all` override (a compressor, a counting / hashing / tee wrapper)
+    #[serde(default)]
+    pub sink_max: Option<u32>,
+}
+
+/// see `Case::sink_max`
+struct PlainSink<'a> {
+    out: &'a mut Vec<u8>,
+    max: usize,
+}
+
+impl<'a> std::io::Write for PlainSink<'a> {
+    fn write(&mut self, buf: &[u8]) -> std::io::Result<usize> {
+        let n = buf.len().min(self.max);
+        self.out.extend_from_slice(&buf[..n]);
+        Ok(n)
+    }
+    fn flush(&mut self) -> std::io::Result<()> {
+        Ok(())
+    }
 }
 
 fn mix(mut z: u64) -> u64 {
@@ -379,6 +401,36 @@ fn render(kind: Kind, recs: &[Rec], l: &Layout) -> Vec<u8> {
 
 fn write_with_library(c: &Case) -> Result<Vec<u8>, Stop> {
     let mut out: Vec<u8> = Vec::new();
+    if let Some(mx) = c.sink_max {
+        // same writer calls, other sink type
+        let sink = PlainSink { out: &mut out, max: (mx as usize).max(1) };
+        match c.kind {
+            Kind::Fasta => {
+                let mut w = match c.wcap {
+                    Some(n) => fasta::Writer::with_capacity(n.max(1), sink),
+                    None => fasta::Writer::new(sink),
+                };
+                w.set_linewrap(c.wrap);
+                for r in &c.recs {
+                    let res = if c.via_record { w.write_record(&fasta::Record::with_attrs(&r.id, r.desc.as_deref(), &r.seq)) } else { w.write(&r.id, r.desc.as_deref(), &r.seq) };
+                    ensure!(res.is_ok(), "fasta::Writer failed on an in-memory sink for record {:?}: {:?}", r, res);
+                }
+                ensure!(w.flush().is_ok(), "fasta::Writer::flush failed on an in-memory sink");
+            }
+            Kind::Fastq => {
+                let mut w = match c.wcap {
+                    Some(n) => fastq::Writer::with_capacity(n.max(1), sink),
+                    None => fastq::Writer::new(sink),
+                };
+                for r in &c.recs {
+                    let res = if c.via_record { w.write_record(&fastq::Record::with_attrs(&r.id, r.desc.as_deref(), &r.seq, &r.qual)) } else { w.write(&r.id, r.desc.as_deref(), &r.seq, &r.qual) };
+                    ensure!(res.is_ok(), "fastq::Writer failed on an in-memory sink for record {:?}: {:?}", r, res);
+                }
+                ensure!(w.flush().is_ok(), "fastq::Writer::flush failed on an in-memory sink");
+            }
+        }
+        return Ok(out);
+    }
     match c.kind {
         Kind::Fasta => {
             let mut w = match c.wcap {
@@ -662,6 +714,8 @@ pub fn check(c: &Case) -> R {
     pass.add_if(c.cut_layout, "truncation of the re-laid-out stream");
     pass.add_if(cut_with_error > 0, "cut stream yields an error item");
     pass.add_if(c.wcap.is_some(), "writer with small capacity");
+    pass.add_if(c.sink_max.is_some(), "writer sink: user-side io::Write without vectored writes");
+    pass.add_if(c.sink_max.is_some() && c.wcap.is_some() && c.wrap.is_some(), "user-side sink, small writer buffer, wrapped FASTA lines");
     pass.add_if(multi, ">= 2 records");
     Ok(pass)
 }
@@ -851,6 +905,11 @@ fn case_strat(kind: Kind) -> BoxedStrategy<Case> {
             layout,
             cut_layout,
             cut_seed,
+            sink_max: match (cut_seed >> 3) % 4 {
+                0 => Some(1 + (cut_seed >> 5) % 40),
+                1 => Some(u32::MAX),
+                _ => None,
+            },
         })
         .boxed()
 }
